@@ -30,6 +30,30 @@ def main():
     table = "\n".join(rows)
     p = os.path.join(ROOT, "DESIGN.md")
     s = open(p).read()
+    # per-property "as built" blocks (section 7)
+    for f in sorted(glob.glob(os.path.join(ROOT, "props", "C*.json"))):
+        pid = os.path.basename(f)[:-5]
+        d = json.load(open(f))
+        a, b = f"<!-- ASBUILT {pid} -->", f"<!-- /ASBUILT {pid} -->"
+        block = [a, f"**As built ({pid}) — generated from `props/{pid}.json`.**", "",
+                 "*Modelled:* " + short(d.get("modelled", ""), 4000), "",
+                 "*Not modelled (carried by the correspondence run / oracle only, or out of scope):* " + short(d.get("not_modelled", ""), 4000), "",
+                 "*Theorems (`lean/Gimli/Props/%s.lean`, all required by the audit):* " % pid + ", ".join("`%s`" % t for t in d.get("expected_theorems", [])), "",
+                 "*Level:* " + short(d.get("level_text", ""), 4000), "",
+                 "*Trusted / partial:* " + short(d.get("level_note", ""), 4000)]
+        if d.get("assumptions"):
+            block += ["", "*Assumptions:* " + "; ".join(short(x, 1000) for x in d["assumptions"])]
+        block += [b]
+        text = "\n".join(block)
+        if a in s and b in s:
+            s = s[: s.index(a)] + text + s[s.index(b) + len(b):]
+        else:
+            m = re.search(r"^### %s .*$" % pid, s, re.M)
+            if not m:
+                continue
+            nxt = re.search(r"^(### |## |-{20,})", s[m.end():], re.M)
+            end = m.end() + (nxt.start() if nxt else len(s) - m.end())
+            s = s[:end].rstrip("\n") + "\n\n" + text + "\n\n" + s[end:]
     a, b = "<!-- TABLE8 -->", "<!-- /TABLE8 -->"
     if a in s and b in s:
         s = s[: s.index(a) + len(a)] + "\n" + table + "\n" + s[s.index(b):]
